@@ -141,7 +141,8 @@ def replay_native(ctx, exe, vals, timeout=20):
         for k, v in vals.items(): f.write('%s %d\n' % (k, v))
     ctx.counters['native_replays'] += 1
     try:
-        r = subprocess.run([exe, 'replay', fn], capture_output=True, text=True, timeout=timeout)
+        r = subprocess.run([exe, 'replay', fn], capture_output=True, text=True, timeout=timeout,
+                           env=dict(os.environ, ASAN_OPTIONS='detect_leaks=0'))      # the harness leaves by longjmp on a failed assertion/assumption: leaks of harness buffers are not the subject
     except subprocess.TimeoutExpired:
         return 'hang', 'no termination within %ds' % timeout
     if r.returncode == 0: return 'holds', r.stdout.strip()[-300:]
